@@ -1,6 +1,7 @@
 import YatimlModel.Lemmas.RecSound
 import YatimlModel.Model.Process
 import YatimlModel.Lemmas.RecPerm
+import YatimlModel.Lemmas.LoadPerm
 /-!
 # C03 — polymorphic positions resolve to the unique most-derived match, never a guess
 -/
@@ -117,6 +118,17 @@ theorem C03_registration_order_single (env env' : Env) (h : EnvPerm env env') (f
     ∃ ls', recognize env' fuel n T = .ok ([R], ls') :=
   rrel_singleton (C03_registration_order env env' h fuel n T)
     (recognizeReq_nodup env fuel n (.ty T)) (recognizeReq_nodup env' fuel n (.ty T)) R ls hr
+
+/-- **The outcome of a load does not depend on the registration order**: with the same classes in
+another order the load gives the same value, the same constructor calls, the same savorize trace and
+the same processed tree — or fails in both cases.  (When it fails, the error leaves may come in another
+order; with untamed custom recognisers raising foreign exceptions, which foreign exception surfaces may
+differ too.) -/
+theorem C03_load_registration_order (env env' : Env) (h : EnvPerm env env') (tbl : List Entry) (fuel : Nat)
+    (n : Node) (T : Ty) :
+    (∃ f f', loadNode env tbl fuel n T = .error f ∧ loadNode env' tbl fuel n T = .error f') ∨
+    loadNode env tbl fuel n T = loadNode env' tbl fuel n T :=
+  loadNode_perm env env' h tbl fuel n T
 
 /-- **Order of Union members.** -/
 theorem C03_union_member_order (env : Env) (fuel : Nat) (n : Node) (ms ms' : Tys)
